@@ -136,7 +136,10 @@ def laneHandleWith (full : Bool) : List String → String
        | .untouched => "untouched"
        | .failed e => "err " ++ errName e
        | .resend h b =>
-         if full then "resend " ++ encodeHex h ++ " " ++ wireBody b else "resend " ++ wireBody b)
+         -- the transport's refusal of a field value with a control byte is independent of
+         -- digest.go: it applies to the code as found as well
+         if !h.all Req.DigestAuth.isFieldByte then "err invalid-header"
+         else if full then "resend " ++ encodeHex h ++ " " ++ wireBody b else "resend " ++ wireBody b)
     | _, _, _, _, _, _, _, _ => "bad-op"
   | _ => "bad-op"
 
